@@ -505,6 +505,8 @@ func countShared(ps []PNode) int {
 	return n
 }
 
+var neverCalls int
+
 func mergeFn(name string) gedcom.MergeFunction {
 	switch name {
 	case "always":
@@ -516,6 +518,15 @@ func mergeFn(name string) gedcom.MergeFunction {
 			return m
 		}
 	case "never":
+		// "do not merge" is answered with nil; every other time with a nil pointer of a node type, which callers that
+		// keep their nodes in typed variables hand over (MergeNodeSlices tests the answer with IsNil)
+		neverCalls++
+		if neverCalls%2 == 0 {
+			return func(l, r gedcom.Node, doc *gedcom.Document) gedcom.Node {
+				var none *gedcom.NoteNode
+				return none
+			}
+		}
 		return func(l, r gedcom.Node, doc *gedcom.Document) gedcom.Node { return nil }
 	}
 	return gedcom.EqualityMergeFunction
@@ -659,6 +670,8 @@ func bigAlphabet() alpha {
 		}
 	}
 	a.leaf = append(a.leaf, mk("NOTE", "a", "N1", `{"k":"plain"}`))
+	// nested nodes that carry pointers (legal, unusual): the same pointer on nodes that differ in tag or value, another pointer on equal ones
+	a.leaf = append(a.leaf, mk("NOTE", "b", "N1", `{"k":"plain"}`), mk("OCCU", "a", "N1", `{"k":"plain"}`), mk("NOTE", "a", "N2", `{"k":"plain"}`))
 	// the other kinds of node that have a type of their own
 	for _, tv := range [][2]string{{"SEX", "M"}, {"SEX", "F"}, {"SEX", ""}, {"NICK", "a"}, {"TYPE", "a"}, {"FORM", "a"}, {"MAP", ""}, {"LATI", "N1"}, {"LONG", "E1"},
 		{"FONE", "a"}, {"ROMN", "a"}} {
@@ -676,7 +689,8 @@ func bigAlphabet() alpha {
 		dateNode("After", 1900), mk("DATE", "(after the war)", "", `{"k":"phrase"}`), mk("DATE", "sometime", "", `{"k":"baddate"}`))
 	a.leaf = append(a.leaf, mk("_UID", "EE13561DDB204985BFFDEEBF82A5226C5B2E", "", `{"k":"uid","u":1}`),
 		mk("_UID", "92FF8B766F327F48A256C3AE6DAE50D3A114", "", `{"k":"uid","u":2}`), mk("_UID", "xyz", "", `{"k":"baduid"}`))
-	a.edit = []ANode{mk("NOTE", "zz", "", `{"k":"plain"}`), mk("_NEW", "", "", `{"k":"plain"}`), mk("OCCU", "q", "Q", `{"k":"plain"}`)}
+	a.edit = []ANode{mk("NOTE", "zz", "", `{"k":"plain"}`), mk("_NEW", "", "", `{"k":"plain"}`), mk("OCCU", "q", "Q", `{"k":"plain"}`),
+		mk("_NEW", "", "N1", `{"k":"plain"}`), mk("NOTE", "zz", "N1", `{"k":"plain"}`)}
 	return a
 }
 
